@@ -29,7 +29,13 @@ HEADER_START = [["H\txx:i:1"], ["H\txx:i:1", "H\txx:i:2"], ["H\tzz:Z:a\tTS:i:5"]
 HEADER_ADDS = [("xx", 3, None), ("xx", "a", "Z"), ("xx", "a", None), ("xx", 1.5, "f"), ("xx", 7, "i"), ("zz", "b", None),
                ("zz", 5, "i"), ("TS", 6, None), ("TS", 5, None), ("VN", "2.0", None), ("VN", "1.0", None), ("jj", [2], "J"),
                ("jj", "x", "Z"), ("ff", 3.5, None), ("ff", "q", "Z"), ("nw", 1, None), ("nw", "a\tb", None),
-               ("x", 1, None), ("xx", None, None), ("ff", float("inf"), None)]
+               ("x", 1, None), ("xx", None, None), ("ff", float("inf"), None),
+               # header line objects built at a lower level than the Gfa (nothing was checked when they
+               # were built): a tag the Gfa accepts followed by one it may refuse
+               ("@line", "H\tqa:Z:ok\tqb:Z:caf\u00e9", 0), ("@line", "H\tqc:i:1\tqd:Z:a\x01b", 0),
+               ("@line", "H\tqe:Z:ok\tqf:i:x1", 0), ("@line", "H\tqg:Z:ok\tTS:i:77", 1),
+               ("@line", "H\tqh:Z:ok\txx:Z:a", 1), ("@line", "H\tqi:Z:ok\tqj:J:{bad", 0),
+               ("@line", "H\tqk:Z:ok\tql:H:0a", 0)]
 
 
 def cases(rng, tier, shard, nshards):
@@ -153,7 +159,14 @@ def run_header_add(case, ctx):
     for i in case["adds"]:
         tag, value, dt = HEADER_ADDS[i]
         before = O.obs(g)
-        rr = call(ctx, "header.add", lambda: g.header.add(tag, value, dt) if dt else g.header.add(tag, value))
+        if tag == "@line":
+            lo = call(ctx, "Line(str)", gfapy.Line, value, vlevel=dt)
+            if not lo.ok:
+                continue
+            rr = call(ctx, "add_line(header Line built at a lower level)", g.add_line, lo.value)
+            ctx.count("header_line_objects_offered")
+        else:
+            rr = call(ctx, "header.add", lambda: g.header.add(tag, value, dt) if dt else g.header.add(tag, value))
         ctx.count("steps")
         ctx.count("header_add_calls")
         if rr.ok:
